@@ -272,6 +272,10 @@ func (ws *priorityWriteSchedulerRFC7540) CloseStream(streamID uint32) {
 
 	q := n.q
 	ws.queuePool.put(&q)
+	// The closed node may stay in the tree. Its queue now belongs to the pool:
+	// drop our view of it, so that Pop does not return discarded (zeroed) frames
+	// and a later stream reusing the queue is not aliased by this node.
+	n.q = writeQueue{}
 	if ws.maxClosedNodesInTree > 0 {
 		ws.addClosedOrIdleNode(&ws.closedNodes, ws.maxClosedNodesInTree, n)
 	} else {
